@@ -19,7 +19,7 @@ def enc_val(v):
 def wire(ops):
     out = []
     for o in ops:
-        if o[0] in ("g", "u"):
+        if o[0] in ("g", "u", "hg", "B"):
             out.append("%s %s" % (o[0], o[1]))
         else:
             out.append("%s %s %s" % (o[0], o[1], enc_val(o[2])))
@@ -286,7 +286,7 @@ def instrument(ops, reads):
     out = []
     for o in ops:
         out.append(o)
-        if o[0] != "g":
+        if o[0] not in ("g", "hg"):
             out.extend(reads)
     return out
 
@@ -502,4 +502,179 @@ def oracle_multi(pre, ops, replies):
             last = ("d " + o[1], "-derive-")
             continue
         last = ("%s %s%s" % (o[0], o[1], "" if len(o) < 3 else " = %r" % (o[2],)), o[1].split(".", 1)[0])
+    return out
+
+
+# ---------------------------------------------------------------- special names, several lines, scale
+SPECIAL_NAMES = [("Cookie", "cOOkie"), ("Set-Cookie", "set-cookie"), ("Vary", "VARY"), ("Cache-Control", "cache-control"),
+                 ("Surrogate-Key", "surrogate-KEY"), ("Surrogate-Control", "SURROGATE-control"), ("Host", "hOST"),
+                 ("Content-Length", "content-length"), ("Fastly-FF", "fastly-ff"), ("X_a.b1", "x_A.B1"), ("X-9", "x-9"),
+                 ("X-" + "Long" * 28, "x-" + "long" * 28)]
+PROTECTED = {"content-length", "fastly-ff", "te", "expect", "trailer", "upgrade", "transfer-encoding", "content-range",
+             "proxy-authenticate", "proxy-authotization"}
+SKEYS = ["a", "b", "sid", "a1", "ab", "max-age"]
+
+
+def cookie_value(rng):
+    r = rng.random()
+    if r < 0.5:
+        return token(rng)
+    if r < 0.65:
+        return rng.choice([b"x y", b"1,2", b"a b,c"])
+    if r < 0.75:
+        return b""
+    return rng.choice([b'x"y', "é".encode(), b"a;b", b"back\\slash", b'"q"', b"ctl\x01", b"=eq=", b"sp ace="])
+
+
+def line_value(rng, cookie):
+    n = rng.randint(1, 3)
+    items = []
+    for _ in range(n):
+        k = rng.choice(SKEYS)
+        r = rng.random()
+        items.append(k if r < 0.15 else "%s=%s" % (k, token(rng).decode()) if r < 0.8 else '%s="%s"' % (k, rng.choice(["x y", "1,2", "q"])))
+    sep = rng.choice(["; ", ";", " ; "]) if cookie else rng.choice([", ", ",", " , "])
+    if rng.random() < 0.1:
+        return rng.choice([b"", b"abc", b"  ", b"=", b";", b"a", b"a="])
+    return sep.join(items).encode()
+
+
+def special_reads(pair, with_fn=True):
+    a, b = pair
+    out = [("g", a), ("g", b)]
+    for k in SKEYS[:5]:
+        out.append(("g", "%s:%s" % (b, k)))
+    out.append(("g", "%s:A" % a))
+    if with_fn and len(a) <= 100:
+        out += [("hg", a), ("hg", b), ("hg", "%s:a" % a), ("hg", "%s:sid" % b)]
+    return out
+
+
+def special_history(rng, n=None):
+    """one header name with special handling (or an unusual spelling): several lines (add), sub-field operations on
+    keys that live on any line, every mutating step surrounded by reads through every access path"""
+    pair = rng.choice(SPECIAL_NAMES if rng.random() < 0.8 else NAMES)
+    cookie = pair[0].lower() in ("cookie", "set-cookie")
+    rd = special_reads(pair)
+    ops = list(rd)
+    for _ in range(n or rng.randint(2, 6)):
+        name = rng.choice(pair)
+        r = rng.random()
+        if r < 0.2:
+            o = ("s", name, rng.choice([line_value(rng, cookie), b"", None, token(rng)]))
+        elif r < 0.45:
+            o = ("a", name, line_value(rng, cookie))
+        elif r < 0.7:
+            o = ("s", "%s:%s" % (name, rng.choice(SKEYS)), cookie_value(rng) if rng.random() < 0.85 else None)
+        elif r < 0.88:
+            o = ("u", "%s:%s" % (name, rng.choice(SKEYS)))
+        else:
+            o = ("u", name)
+        ops.append(o)
+        ops.extend(rd)
+    return pair, ops
+
+
+def big_dict(rng, n=50):
+    """many sub-fields whose keys are prefixes of each other"""
+    keys = []
+    base = rng.choice(["k", "a", "max"])
+    for i in range(n):
+        keys.append(base + "".join(str((i >> j) & 1) for j in range(i % 7)) + ("-%d" % i if i % 3 == 0 else ""))
+    seen, items = set(), []
+    for k in keys:
+        if k.lower() in seen:
+            continue
+        seen.add(k.lower())
+        items.append("%s=%s" % (k, token(rng).decode()))
+    return ", ".join(items).encode(), [x.split("=")[0] for x in items]
+
+
+def scale_history(rng, ballast):
+    """an object that holds many headers: the laws on a few headers, the rest is ballast"""
+    pair = rng.choice(NAMES + [("Ballast-3", "ballast-3"), ("Ballast-0", "BALLAST-0"), ("Cache-Control", "cache-control")])
+    rd = [("g", pair[0]), ("g", pair[1]), ("g", "%s:a" % pair[1]), ("g", "Ballast-1"), ("g", "ballast-%d" % max(0, ballast - 1)),
+          ("hg", pair[1])]
+    ops = []
+    first = [("s", pair[0], rng.choice([b"x", b"a=1, bc=2", b""]))] if rng.random() < 0.7 else []
+    if rng.random() < 0.5:
+        ops += first + [("B", str(ballast))]
+    else:
+        ops += [("B", str(ballast))] + first
+    ops += rd
+    for _ in range(rng.randint(2, 5)):
+        name = rng.choice(pair)
+        r = rng.random()
+        if r < 0.4:
+            q = rng.random()
+            v = (b"v" * rng.choice([8192, 65536]) if q < 0.08 else big_dict(rng)[0] if q < 0.2
+                 else rng.choice([token(rng), b"", b"a=1, bc=2", None]))
+            o = ("s", name, v)
+        elif r < 0.55:
+            o = ("a", name, token(rng))
+        elif r < 0.8:
+            o = ("s", "%s:%s" % (name, rng.choice(["a", "bc", "k", "k1"])), rng.choice([token(rng), b"x y", b""]))
+        elif r < 0.9:
+            o = ("u", "%s:%s" % (name, rng.choice(["a", "k0", "k"])))
+        else:
+            o = ("u", name)
+        ops.append(o)
+        ops.extend(rd)
+    return ops
+
+
+def xwire(ops):
+    out = []
+    for o in ops:
+        if o[0] in ("g", "u", "hg", "B"):
+            out.append("%s %s" % (o[0], o[1]))
+        else:
+            out.append("%s %s %s" % (o[0], o[1], enc_val(o[2])))
+    return ";".join(out)
+
+
+def valid_cookie_value(v):
+    return v is not None and all(0x20 <= c < 0x7f and c not in b'";\\' for c in v)
+
+
+def oracle_special(ops, replies, request_object=True):
+    """Direct oracle (no model) for one header name: writes to a header that is not protected succeed; after a whole
+    set every spelling reads the value through both read paths; after unset not set; a cookie set with a value a cookie
+    can carry reads back (request objects only: elsewhere Cookie is an ordinary header); the two spellings always read the same."""
+    out = []
+    last = None
+    block = {}
+    for o, rep in zip(ops, replies):
+        if o[0] in ("s", "a", "u", "B"):
+            hname = o[1].split(":")[0].lower()
+            if o[0] != "B" and hname not in PROTECTED and not (o[1].lower().split(":")[0] in PROTECTED) and rep != "ok":
+                out.append("%s %s is refused (%s)" % (o[0], o[1], rep))
+            if o[0] == "B" and rep != "ok":
+                out.append("setting %s ballast headers fails" % o[1])
+            last = o if rep == "ok" else None
+            block = {}
+            continue
+        block[(o[0], o[1])] = rep
+        # spellings agree
+        for (k, t), v in list(block.items()):
+            if k == o[0] and t != o[1] and t.lower() == o[1].lower() and ":" not in t and v != rep:
+                out.append("%s of %s and %s differ: %s / %s" % (k, t, o[1], v, rep))
+        if last is None:
+            continue
+        ln, _, lk = last[1].partition(":")
+        tn, _, tk = o[1].partition(":")
+        if tn.lower() != ln.lower() or ln.lower() in PROTECTED:
+            continue
+        if last[0] == "s" and not lk and not tk and last[2] is not None:
+            want = "S" + cut_lf(last[2]).hex()
+            if rep != want and not (o[0] == "g" and False):
+                out.append("after set %s = %r: %s %s reads %s, expected %s" % (last[1], last[2][:40], o[0], o[1], rep[:60], want[:60]))
+        elif ((last[0] == "u" and not lk) or (last[0] == "s" and not lk and last[2] is None)) and not tk:
+            want = "N" if o[0] == "g" else "S"
+            if rep != want:
+                out.append("after %s %s: %s %s reads %s, expected %s" % (last[0], last[1], o[0], o[1], rep[:60], want))
+        elif last[0] == "s" and lk and o[0] == "g" and tk == lk and ln.lower() == "cookie" and request_object and valid_cookie_value(last[2]) \
+                and not (len(last[2]) > 1 and last[2][:1] == b'"' and last[2][-1:] == b'"'):
+            if rep != "S" + last[2].hex():
+                out.append("after set %s = %r: %s reads %s" % (last[1], last[2], o[1], rep[:60]))
     return out
